@@ -9,10 +9,14 @@ import (
 	"hash/fnv"
 	"os"
 	"os/exec"
+	"os/signal"
 	"path/filepath"
+	"runtime/pprof"
 	"sort"
 	"strconv"
 	"strings"
+	"sync"
+	"syscall"
 	"time"
 )
 
@@ -320,6 +324,13 @@ func WorkerMain(id, tier string, shard, n int, seed int64, scratch, calcBin stri
 	if err == nil {
 		w.curFile = cf
 	}
+	if dir := os.Getenv("VERIF_CPUPROFILE"); dir != "" && shard == 0 {
+		// development aid: CPU profile of worker 0
+		if f, err := os.Create(filepath.Join(dir, id+".cpu.prof")); err == nil {
+			pprof.StartCPUProfile(f)
+			defer pprof.StopCPUProfile()
+		}
+	}
 	func() {
 		defer func() {
 			if r := recover(); r != nil {
@@ -460,9 +471,15 @@ func CheckMain(id, tier string, self string) int {
 		sb := &strings.Builder{}
 		cmd.Stderr = sb
 		cmd.Stdout = os.Stderr
+		cmd.SysProcAttr = &syscall.SysProcAttr{Setpgid: true} // its own process group: killing a stuck worker also kills the calc binaries it started
 		cmd.Env = append(os.Environ(), "GOMAXPROCS=2")
 		if n == 1 {
 			cmd.Env = os.Environ()
+		}
+		if os.Getenv("GOGC") == "" {
+			// the workers allocate short-lived trees and sessions: collecting less often saves a third of the wall
+			// time; the soft limit keeps the checks with large sessions (C08, C15, C18) bounded
+			cmd.Env = append(cmd.Env, "GOGC=400", "GOMEMLIMIT=3GiB")
 		}
 		if coverDir != "" {
 			cmd.Env = append(cmd.Env, "GOCOVERDIR="+coverDir)
@@ -473,6 +490,19 @@ func CheckMain(id, tier string, self string) int {
 		}
 		procs[i] = proc{cmd, sb}
 	}
+	// an interrupted run takes its workers (each in its own process group) with it
+	sigCh := make(chan os.Signal, 1)
+	signal.Notify(sigCh, syscall.SIGINT, syscall.SIGTERM, syscall.SIGHUP)
+	go func() {
+		<-sigCh
+		for _, p := range procs {
+			if p.cmd != nil && p.cmd.Process != nil {
+				syscall.Kill(-p.cmd.Process.Pid, syscall.SIGKILL)
+			}
+		}
+		os.RemoveAll(scratch)
+		os.Exit(2)
+	}()
 	merged := Report{Counters: map[string]int64{}, MaxCounters: map[string]int64{}, Sets: map[string]map[string]int{}, Exhaustive: true}
 	harnessErrs := []string{}
 	// Supervision: a worker that is still running well after the internal deadline is stuck inside one item (the
@@ -499,12 +529,39 @@ func CheckMain(id, tier string, self string) int {
 			for i := range procs {
 				if !finished[i] {
 					stalled[i] = true
-					procs[i].cmd.Process.Kill()
+					syscall.Kill(-procs[i].cmd.Process.Pid, syscall.SIGKILL)
 				}
 			}
 		}
 	}
 	timer.Stop()
+	// the items of lost workers are re-executed alone, all at once
+	lostItem := func(i int) (fam, item string) {
+		cur, _ := os.ReadFile(filepath.Join(scratch, fmt.Sprintf("cur.%d", i)))
+		parts := strings.SplitN(string(cur), "\x00", 3)
+		if len(parts) >= 2 {
+			fam, item = parts[0], parts[1]
+		}
+		return
+	}
+	verdicts := make([]*Failure, n)
+	var vwg sync.WaitGroup
+	for i := range procs {
+		var r Report
+		b, rerr := os.ReadFile(filepath.Join(scratch, fmt.Sprintf("report.%d.json", i)))
+		if rerr == nil {
+			rerr = json.Unmarshal(b, &r)
+		}
+		if werrs[i] != nil || rerr != nil || !r.Done {
+			vwg.Add(1)
+			go func(i int) {
+				defer vwg.Done()
+				fam, item := lostItem(i)
+				verdicts[i] = isolatedVerdict(self, id, fam, item, stalled[i])
+			}(i)
+		}
+	}
+	vwg.Wait()
 	for i, p := range procs {
 		werr := werrs[i]
 		var r Report
@@ -526,7 +583,7 @@ func CheckMain(id, tier string, self string) int {
 			if stalled[i] {
 				how = fmt.Sprintf("was still inside one item %s after the deadline and was killed", grace)
 			}
-			if f := isolatedVerdict(self, id, fam, item, stalled[i]); f != nil {
+			if f := verdicts[i]; f != nil {
 				merged.Failures = append(merged.Failures, *f)
 				merged.FailTotal++
 				fmt.Fprintf(os.Stderr, "worker %d %s while executing family %q item %q; re-executed alone: %s\n", i, how, fam, clip(item, 300), f.Sig)
@@ -721,7 +778,7 @@ func CheckMain(id, tier string, self string) int {
 
 // isolatedVerdict re-executes one item alone in a fresh process after the worker executing it died or was killed
 // for not finishing. The item fails if it fails again alone: with a signature of its own, by killing the process
-// again, or by not finishing within 120 s a second time (items take milliseconds to a few seconds). nil: the item is
+// again, or by not finishing within 180 s a second time (items take milliseconds to a few seconds). nil: the item is
 // fine alone, the loss of the worker stays a harness error.
 func isolatedVerdict(self, id, fam, item string, wasStalled bool) *Failure {
 	if item == "" {
@@ -732,10 +789,10 @@ func isolatedVerdict(self, id, fam, item string, wasStalled bool) *Failure {
 		b, _ := json.Marshal(map[string][]string{"stmts": strings.Split(item, "\n----\n")})
 		item = string(b)
 	}
-	sig, detail, died, timedOut := ExecIsolated(self, id, item, 120*time.Second)
+	sig, detail, died, timedOut := ExecIsolated(self, id, item, 180*time.Second)
 	switch {
 	case timedOut && wasStalled:
-		return &Failure{Family: fam, Item: item, Witness: item, Sig: "nontermination:" + fam, Detail: "executing this item does not finish: the worker was killed long after the deadline and a fresh process executing only this item was killed after 120 s"}
+		return &Failure{Family: fam, Item: item, Witness: item, Sig: "nontermination:" + fam, Detail: "executing this item does not finish: the worker was killed long after the deadline and a fresh process executing only this item was killed after 180 s"}
 	case timedOut:
 		return nil
 	case died != "":
@@ -751,6 +808,7 @@ func isolatedVerdict(self, id, fam, item string, wasStalled bool) *Failure {
 // ExecIsolated runs `vcheck exec id item` in a fresh process.
 func ExecIsolated(self, id, item string, limit time.Duration) (sig, detail, died string, timedOut bool) {
 	cmd := exec.Command(self, "exec", id, item)
+	cmd.SysProcAttr = &syscall.SysProcAttr{Setpgid: true}
 	var out strings.Builder
 	cmd.Stderr = &out
 	cmd.Stdout = &out
@@ -773,7 +831,7 @@ func ExecIsolated(self, id, item string, limit time.Duration) (sig, detail, died
 		}
 		return "harness:no-result", clip(o, 300), "", false
 	case <-time.After(limit):
-		cmd.Process.Kill()
+		syscall.Kill(-cmd.Process.Pid, syscall.SIGKILL)
 		<-done
 		return "", "", "", true
 	}
@@ -813,10 +871,10 @@ func ReplayMain(path string) int {
 	var sig, detail string
 	if strings.HasPrefix(r.Sig, "nontermination:") || strings.HasPrefix(r.Sig, "host-fatal:") {
 		self, _ := os.Executable()
-		s2, d2, died, timedOut := ExecIsolated(self, r.Property, r.Witness, 120*time.Second)
+		s2, d2, died, timedOut := ExecIsolated(self, r.Property, r.Witness, 180*time.Second)
 		sig, detail = s2, d2
 		if timedOut {
-			sig, detail = r.Sig, "executing the witness alone in a fresh process did not finish within 120 s"
+			sig, detail = r.Sig, "executing the witness alone in a fresh process did not finish within 180 s"
 		} else if died != "" {
 			sig, detail = r.Sig, "executing the witness alone kills the process: "+died
 		}
